@@ -23,6 +23,13 @@ Round 4 classes: extreme points with a twin closer than tol.merge; points near a
 cover a cap of it; the hull by every option value convex_hull offers (joggle ...); primitives
 (Box, Cylinder, Capsule, Sphere, Extrusion) placed, mirrored and re-scaled; a capsule (two times
 ~1000 co-spherical vertices) far from the origin; flat input at every placement, also as a mesh.
+
+Round 5 classes: histories "another cached property is read first (is_convex, is_watertight, volume,
+symmetry ...), then the hull and every bounding volume" on meshes whose faces look convex without the
+mesh being its own hull (a dent of 1e-6 .. 3e-6 of the size, vertices no face uses) and on ordinary
+closed meshes, also with a vertex edit between the read and the queries; input with more than 512
+points / hull vertices without radial symmetry (points on an ellipsoid, the same filled, a scaled
+icosphere mesh, a big gaussian cloud) through every route.
 """
 
 from __future__ import annotations
@@ -41,7 +48,10 @@ RULE = (
     "Trimesh (its hull), plus closed generator meshes and radially symmetric creation meshes; clouds "
     "with extreme points doubled at 1e-10 .. 4e-9, caps of a sphere with radial noise 1e-8 / 1e-7, the hull "
     "under 10 qhull option values, 5 kinds of primitive x 4 placement histories (rigid, two mirrors, "
-    "re-scaled), capsules 3e3 .. 2e5 from the origin, 8 kinds of flat input x every transform.  One "
+    "re-scaled), capsules 3e3 .. 2e5 from the origin, 8 kinds of flat input x every transform; 3 kinds of mesh "
+    "(sub-tolerance dent, unreferenced vertices, plain) x a prior read of one of 21 cached properties "
+    "(is_convex always) before the queries; 4 kinds of input with 530 .. 3000 (quick: 1400) points / hull "
+    "vertices and three different axes.  One "
     "case = one (query, object); distinct = distinct (query, point bytes); non-trivial = the input "
     "spans its dimension and has more points than the dimension + 1 or is judged for minimality."
 )
@@ -513,7 +523,7 @@ def check_obb(run, cx, obj, route, exact=True):
 
     run.case(cx.tag("obb:" + route), cx.P, nontrivial=cx.full and len(cx.P) > cx.d + 1)
     try:
-        if route == "array":
+        if route.split(":")[0] == "array":
             M, ex = bounds.oriented_bounds(cx.P.copy())
         elif route == "array2d":
             M, ex = bounds.oriented_bounds_2D(cx.P.copy())
@@ -616,7 +626,7 @@ def check_sphere(run, cx, obj, route, mb=None, minimal=True):
         scls = support_class(mb, d)
     key = "sphere route=%s %s" % (route, cx.klass())
     try:
-        if route in ("array", "array2d"):
+        if route.split(":")[0] in ("array", "array2d"):
             c, r = nsphere.minimum_nsphere(P.copy())
         else:
             s = obj.bounding_sphere
@@ -694,7 +704,7 @@ def check_cylinder(run, cx, obj, route):
 
     run.case(cx.tag("cylinder:" + route), cx.P, nontrivial=cx.full and len(cx.P) > 4)
     try:
-        if route == "array":
+        if route.split(":")[0] == "array":
             k = bounds.minimum_cylinder(cx.P.copy())
             Tm, r, h = k["transform"], float(k["radius"]), float(k["height"])
         else:
@@ -1014,6 +1024,215 @@ def run_mesh_history(run, mesh, cls, xf):
 
 
 # ------------------------------------------------------------------------------------------
+# round 5: something else was read from the mesh before the hull / the volumes are asked for
+
+
+# cached properties a caller may have looked at first (each may leave a value in the cache of the
+# mesh that a later hull / bounding query could be tempted to reuse)
+PRIOR_READS = ("is_convex", "is_watertight", "is_winding_consistent", "is_volume", "volume", "area", "face_normals", "vertex_normals",
+               "symmetry", "facets", "body_count", "euler_number", "center_mass", "principal_inertia_components",
+               "face_adjacency_projections", "referenced_vertices", "scale", "extents", "centroid", "bounds", "triangles_center")
+PRIOR_KINDS = ("dented", "unreferenced", "plain")
+
+
+def _convex_base(rng):
+    """A convex polyhedron with flat faces (float vertices, outward faces), randomly placed."""
+    r = int(rng.integers(4))
+    if r == 0:
+        V, F = G.box_int(tuple(int(x) for x in rng.integers(1, 6, size=3)))
+    elif r == 1:
+        V, F = G.octahedron()
+    elif r == 2:
+        V, F = G.tetra(rng)
+    else:
+        V, F = G.hull_int(rng, int(rng.integers(6, 12)))
+    s = float(rng.choice([1e-3, 1.0, 1.0, 1e3]))
+    V = (np.asarray(V, dtype=np.float64) @ rand_rot(rng).T + rng.normal(size=3) * 3.0) * s
+    return V, np.asarray(F, dtype=np.int64)
+
+
+def prior_mesh(rng, kind):
+    """
+    (V, F) of a mesh for which "the faces look convex" and "the mesh is its own hull" differ, or
+    an ordinary closed mesh:
+      dented        a finely tessellated convex polyhedron, one or two vertices (not corners) 1e-6 ..
+                    3e-6 of the size below their flat face / edge: far above rounding and above the
+                    1e-7 the hull is judged with, below the 1e-5 `is_convex` forgives
+      unreferenced  a convex polyhedron (or a generator mesh) that carries 1 - 3 vertices no face
+                    uses: outside, far outside, inside
+      plain         a closed generator mesh, convex or not
+    """
+    import trimesh
+
+    if kind == "dented":
+        V0, F0 = _convex_base(rng)
+        m = trimesh.Trimesh(V0, F0, process=False)
+        for _ in range(int(rng.integers(1, 3))):
+            m = m.subdivide()
+        V, F = np.asarray(m.vertices, dtype=np.float64).copy(), np.asarray(m.faces, dtype=np.int64).copy()
+        ext = float(np.linalg.norm(np.ptp(V, axis=0)))
+        c = V.mean(axis=0)
+        for k in rng.choice(np.arange(len(V0), len(V)), size=int(rng.integers(1, 3)), replace=False):
+            u = c - V[k]
+            V[k] = V[k] + u / np.linalg.norm(u) * ext * 10 ** float(rng.uniform(-6.0, -5.5))
+        return V, F
+    if kind == "unreferenced":
+        if rng.random() < 0.7:
+            V, F = _convex_base(rng)
+            if rng.random() < 0.5:
+                m = trimesh.Trimesh(V, F, process=False).subdivide()
+                V, F = np.asarray(m.vertices, dtype=np.float64).copy(), np.asarray(m.faces, dtype=np.int64).copy()
+        else:
+            for _tag, V, F in G.closed_meshes(rng, count=1, allow_multibody=False):
+                pass  # the last one: the random one after the four fixed shapes
+            V = np.asarray(V, dtype=np.float64) @ rand_rot(rng).T
+            F = np.asarray(F, dtype=np.int64)
+        ext = float(np.linalg.norm(np.ptp(V, axis=0)))
+        c = V.mean(axis=0)
+        extra = []
+        for _ in range(int(rng.integers(1, 4))):
+            u = rng.normal(size=3)
+            u /= np.linalg.norm(u)
+            extra.append(c + u * ext * float(rng.choice([0.05, 0.8, 1.5, 4.0])))
+        if not any(np.linalg.norm(e - c) > 0.7 * ext for e in extra):
+            extra[0] = c + (extra[0] - c) / np.linalg.norm(extra[0] - c) * ext * 1.5
+        return np.vstack([V, np.array(extra)]), F
+    for _tag, V, F in G.closed_meshes(rng, count=1, allow_multibody=False):
+        pass
+    s = float(rng.choice([1e-3, 1.0, 1e3]))
+    return (np.asarray(V, dtype=np.float64) @ rand_rot(rng).T + rng.normal(size=3)) * s, np.asarray(F, dtype=np.int64)
+
+
+def run_prior_read(run, V, F, kind, read, edit=None):
+    """
+    History: build the mesh, READ ONE OTHER PROPERTY, then ask for the hull and every bounding volume.
+    What the mesh was asked before must not change what bounds it; the answers are judged by the
+    same independent checks as on a fresh mesh, against ALL vertices of the mesh.
+    edit = [k, depth]: after the read, vertex k is pushed `depth` of the size towards the centroid in
+    place (the convex mesh becomes clearly non-convex) before the queries.
+    """
+    import trimesh
+
+    V = np.ascontiguousarray(V, dtype=np.float64)
+    F = np.asarray(F, dtype=np.int64)
+    m = trimesh.Trimesh(V.copy(), F.copy(), process=False)
+    try:
+        val = getattr(m, read)
+    except Exception as e:  # noqa
+        run.skip("prior read %s raised %s" % (read, type(e).__name__))
+        return
+    run.count("prior_read_histories")
+    run.state("prior_read", (kind, read, str(val) if isinstance(val, (bool, np.bool_, str, type(None))) else "-"))
+    route = "Trimesh:%s:after_read=%s" % (kind, read)
+    if edit is not None:
+        k, depth = int(edit[0]), float(edit[1])
+        V = V.copy()
+        V[k] = V[k] + (V.mean(axis=0) - V[k]) * depth
+        m.vertices[k] = V[k]
+        route += ":then_vertex_pushed_in"
+    cx = Ctx(V, "prior:" + kind, "read=" + read, 3)
+    cx.extra = {"prior": {"F": F.tolist(), "kind": kind, "read": read, "edit": edit}}
+    try:
+        h = m.convex_hull
+    except Exception as e:  # noqa
+        _v(run, cx, "hull route=%s 3d sym=exception:%s" % (route, type(e).__name__), "mesh.convex_hull raised %r" % (e,), cx.wit(route=route))
+        h = None
+    if h is not None:
+        check_hull(run, cx, h, route)
+    check_obb(run, cx, m, route)
+    check_obb(run, cx, m, route + ".primitive")
+    check_sphere(run, cx, m, route, minimal=False)
+    check_cylinder(run, cx, m, route)
+    check_primitive(run, cx, m, route)
+
+
+def prior_read_case(run, rng, kind, read):
+    V, F = prior_mesh(rng, kind)
+    run_prior_read(run, V, F, kind, read)
+    if kind == "dented" and read == "is_convex":
+        # the same convex-looking mesh, edited after the read: a vertex goes 0.3 of the way to the centroid
+        k = int(rng.integers(len(V)))
+        if k in set(F.reshape(-1).tolist()):
+            run_prior_read(run, V, F, kind, read, edit=[k, 0.3])
+
+
+# ------------------------------------------------------------------------------------------
+# round 5: many points / many hull vertices (size thresholds inside the bounding searches)
+
+
+def large_spec(rng, kind=None, nmax=3000.0):
+    """
+    kind  round       n points ON an ellipsoid with three different axes: every point is a hull vertex
+          round_fill  the same plus as many points inside
+          ellipsoid   an icosphere (642 / 2562 vertices) scaled to three different axes: a mesh
+          bulk        n gaussian points (3000 .. 8000): many points, few hull vertices
+    all rotated, and translated by a few sizes.  No radial symmetry: the general searches run.
+    """
+    kind = kind or ("round", "round_fill", "ellipsoid", "bulk")[int(rng.integers(4))]
+    ax = np.array([1.0, float(rng.uniform(1.4, 2.2)), float(rng.uniform(2.8, 4.0))])[rng.permutation(3)] * float(rng.choice([0.1, 1.0, 1.0, 1e2]))
+    n = int(10 ** float(rng.uniform(np.log10(530.0), np.log10(nmax))))
+    return {"kind": kind, "axes": ax.tolist(), "n": n, "sub": 3 if nmax < 2562 else int(rng.integers(3, 5)), "rot": rand_rot(rng).tolist(),
+            "t": (rng.normal(size=3) * ax.max() * 2).tolist(), "seed": int(rng.integers(2 ** 31))}
+
+
+def build_large(spec):
+    import trimesh
+
+    r = np.random.default_rng(spec["seed"])
+    ax, Rm, t = np.array(spec["axes"]), np.array(spec["rot"]), np.array(spec["t"])
+    F = None
+    if spec["kind"] == "ellipsoid":
+        ico = trimesh.creation.icosphere(subdivisions=spec["sub"])
+        P, F = np.asarray(ico.vertices, dtype=np.float64) * ax, np.asarray(ico.faces, dtype=np.int64)
+    elif spec["kind"] == "bulk":
+        P = r.normal(size=(int(spec["n"] * 2.7), 3)) * ax
+    else:
+        U = r.normal(size=(spec["n"], 3))
+        P = U / np.linalg.norm(U, axis=1, keepdims=True) * ax
+        if spec["kind"] == "round_fill":
+            P = np.vstack([P, P[r.permutation(len(P))] * r.random((len(P), 1)) * 0.9])
+            P = P[r.permutation(len(P))]
+    return np.ascontiguousarray(P @ Rm.T + t), F
+
+
+def run_large(run, spec):
+    """Containment (and the box laws) for input with > 512 points / hull vertices, every route."""
+    import trimesh
+
+    P, F = build_large(spec)
+    cx = Ctx(P, "large:" + spec["kind"], "n>512", 3)
+    # the witness is the recipe (the points follow from it)
+    cx.wit = lambda **kw: dict({"large": spec, "cls": cx.cls, "n_points": len(P)}, **kw)
+    nh = len(np.unique(cx.simplices)) if cx.simplices is not None else 0
+    run.count("large_inputs")
+    run.state("large_hull_vertices", (spec["kind"], "<=512" if nh <= 512 else "<=1024" if nh <= 1024 else "<=2048" if nh <= 2048 else ">2048"))
+    sfx = ":large"
+    if len(P) <= 1000:
+        try:
+            check_hull(run, cx, trimesh.convex.convex_hull(P.copy()), "array" + sfx)
+        except Exception as e:  # noqa
+            _v(run, cx, "hull route=array%s 3d sym=exception:%s" % (sfx, type(e).__name__), "convex_hull raised %r" % (e,), cx.wit())
+    else:
+        check_hull_points(run, cx)
+    check_obb(run, cx, None, "array" + sfx)
+    check_sphere(run, cx, None, "array" + sfx, minimal=False)
+    check_cylinder(run, cx, None, "array" + sfx)
+    objs = [("PointCloud" + sfx, trimesh.PointCloud(P.copy()))]
+    if F is not None:
+        objs.append(("Trimesh" + sfx, trimesh.Trimesh(P.copy(), F.copy(), process=False)))
+    elif cx.simplices is not None and spec["kind"] != "bulk":
+        objs.append(("Trimesh:raw" + sfx, trimesh.Trimesh(P.copy(), cx.simplices.copy(), process=False)))
+    for route, obj in objs:
+        run.state("large_symmetry", (route, str(getattr(obj, "symmetry", None))))
+        check_aabb(run, cx, obj, route)
+        check_obb(run, cx, obj, route)
+        check_obb(run, cx, obj, route + ".primitive")
+        check_sphere(run, cx, obj, route, minimal=False)
+        check_cylinder(run, cx, obj, route)
+        check_primitive(run, cx, obj, route)
+
+
+# ------------------------------------------------------------------------------------------
 # primitives: meshes whose bounding volumes may come from their parameters, not their facets
 
 
@@ -1206,6 +1425,18 @@ def workload(run):
         idx += 1
         if run.mine(idx) and not run.out_of_time(0.25):
             run_primitive(run, far_round_spec(rng))
+    # (0b) round 5: another property read first (is_convex on every kind of mesh, and two other reads);
+    # input with more than 512 points / hull vertices (every kind)
+    for kind in PRIOR_KINDS:
+        for read in ["is_convex", "is_convex"] + [PRIOR_READS[int(i)] for i in rng.choice(np.arange(1, len(PRIOR_READS)), size=2, replace=False)]:
+            idx += 1
+            if run.mine(idx) and not run.out_of_time(0.3):
+                prior_read_case(run, rng, kind, read)
+    nmax = 1400.0 if quick else 3000.0
+    for kind in ("round", "round_fill", "ellipsoid", "bulk"):
+        idx += 1
+        if run.mine(idx) and not run.out_of_time(0.35):
+            run_large(run, large_spec(rng, kind, nmax))
     # (1) every class x transform once (3-D and 2-D), sharded; at the first placement of a class
     # the hull is also asked for with every other option value
     for cls in CLOUD_CLASSES:
@@ -1268,6 +1499,10 @@ def workload(run):
         if n % 5 == 0:
             run_primitive(run, primitive_spec(rng))
             run_primitive(run, far_round_spec(rng))
+        if n % 7 == 0:
+            prior_read_case(run, rng, PRIOR_KINDS[int(rng.integers(len(PRIOR_KINDS)))], PRIOR_READS[int(rng.integers(len(PRIOR_READS)))] if n % 2 else "is_convex")
+        if n % 16 == 0:
+            run_large(run, large_spec(rng, None, nmax))
         if n % 10 == 0:
             check_is_convex_known(run, rng)
         if n % 40 == 0:
@@ -1285,6 +1520,20 @@ def replay(run, case):
         return
     if case.get("prim"):
         run_primitive(run, case["prim"])
+        return
+    if case.get("large"):
+        run_large(run, case["large"])
+        return
+    if case.get("prior"):
+        pr = case["prior"]
+        V = np.array(case["points"], dtype=np.float64)
+        if pr.get("edit") is not None:
+            # the witness holds the points AFTER the edit; undo it to get the mesh that was read
+            k, depth = int(pr["edit"][0]), float(pr["edit"][1])
+            others = (V.sum(axis=0) - V[k]) / len(V)
+            # V1[k] = V0[k] (1 - depth) + depth (others + V0[k] / n)
+            V[k] = (V[k] - depth * others) / (1 - depth + depth / len(V))
+        run_prior_read(run, V, np.array(pr["F"], dtype=np.int64), pr["kind"], pr["read"], edit=pr.get("edit"))
         return
     P = np.array(case["points"], dtype=np.float64)
     if case.get("d", 3) == 2:
